@@ -1,4 +1,330 @@
-import MtxVerif.Model.C06
+/-
+C06 — Path names cannot escape the recording tree.  Property theorems.
+-/
+import MtxVerif.Lemmas.C06
+
 namespace MtxVerif.C06
-theorem stub : True := trivial
+open MtxVerif.C26 (Tok Kind tokenize encodeA substPath)
+
+/-! ### 1. accepted names have the stated shape -/
+
+/-- `IsValidPathName` accepts exactly the names the property describes: non-empty, only letters,
+digits, `_ - . /`, no leading/trailing slash, no `.` or `..` segment. -/
+theorem valid_iff_spec (n : Bytes) : isValidPathName n = none ↔ validSpec n = true := by
+  rw [valid_facts]
+  unfold validSpec
+  simp only [Bool.and_eq_true, Bool.not_eq_true', bne_iff_ne, ne_eq]
+  constructor
+  · intro F
+    refine ⟨⟨⟨⟨⟨?_, F.chars⟩, F.lead⟩, F.trail⟩, ?_⟩, ?_⟩
+    · cases n with
+      | nil => exact absurd rfl F.ne
+      | cons c r => rfl
+    · cases h : (splitOn 47 n).contains dot
+      · rfl
+      · exact absurd rfl (F.nodots dot (by simpa using h)).1
+    · cases h : (splitOn 47 n).contains dotdot
+      · rfl
+      · exact absurd rfl (F.nodots dotdot (by simpa using h)).2
+  · rintro ⟨⟨⟨⟨⟨h1, h2⟩, h3⟩, h4⟩, h5⟩, h6⟩
+    refine ⟨?_, h3, h4, h2, ?_⟩
+    · intro e; subst e; simp at h1
+    · intro c hc
+      constructor
+      · intro e; subst e
+        have : (splitOn 47 n).contains dot = true := by simpa using hc
+        rw [this] at h5; cases h5
+      · intro e; subst e
+        have : (splitOn 47 n).contains dotdot = true := by simpa using hc
+        rw [this] at h6; cases h6
+
+theorem valid_chars (n : Bytes) (h : isValidPathName n = none) : ∀ c ∈ n, okChar c = true := by
+  have := ((valid_facts n).mp h).chars
+  rwa [List.all_eq_true] at this
+
+theorem valid_no_dot_segments (n : Bytes) (h : isValidPathName n = none) :
+    dot ∉ splitOn 47 n ∧ dotdot ∉ splitOn 47 n :=
+  ⟨fun hm => (((valid_facts n).mp h).nodots _ hm).1 rfl, fun hm => (((valid_facts n).mp h).nodots _ hm).2 rfl⟩
+
+theorem valid_nonempty_no_edge_slash (n : Bytes) (h : isValidPathName n = none) :
+    n ≠ [] ∧ n.head? ≠ some 47 ∧ n.getLast? ≠ some 47 :=
+  let F := (valid_facts n).mp h
+  ⟨F.ne, F.lead, F.trail⟩
+
+/-! ### 2. FindPathConf — which names reach a configuration -/
+
+/-- the property's first sentence for publishing / reading / segment deletion, code as written:
+every name `FindPathConf` accepts is valid.  **False** (witness below): the static map lookup comes
+before the validation, and the keys of regexp confs (`~…`) are in that map. -/
+def find_accepts_only_valid_full : Prop :=
+  ∀ (confs : List ConfEntry) (name key : Bytes), (∀ c ∈ confs, keyOK c = true) →
+    findPathConf confs name = .found key → validSpec name = true
+
+theorem allKeys_valid : validSpec allKey = true ∧ validSpec allOthersKey = true := by decide
+
+/-- Code as written: outside the decidable class `regexKeyAsName` every accepted name is valid. -/
+theorem find_accepts_only_valid_partial (confs : List ConfEntry) (name key : Bytes)
+    (hk : ∀ c ∈ confs, keyOK c = true) (hx : regexKeyAsName confs name = false)
+    (h : findPathConf confs name = .found key) : validSpec name = true := by
+  unfold findPathConf at h
+  split at h
+  · rename_i c hc
+    have hmem := List.mem_of_find?_eq_some hc
+    have hkey : c.key = name := by simpa using List.find?_some hc
+    have hok := hk c hmem
+    unfold keyOK at hok
+    by_cases hr : c.isRegexp = true
+    · simp only [hr, if_true, Bool.or_eq_true, beq_iff_eq] at hok
+      rcases hok with ht | ha
+      · exfalso
+        unfold regexKeyAsName at hx
+        rw [hkey] at ht
+        have : confs.any (·.key == name) = true := by
+          rw [List.any_eq_true]; exact ⟨c, hmem, by simp [hkey]⟩
+        simp [ht, this] at hx
+      · rw [hkey] at ha
+        unfold isAllKey at ha
+        simp only [Bool.or_eq_true, beq_iff_eq] at ha
+        rcases ha with e | e
+        · rw [e]; exact allKeys_valid.1
+        · rw [e]; exact allKeys_valid.2
+    · simp only [hr, Bool.false_eq_true, if_false, Option.isNone_iff_eq_none] at hok
+      rw [hkey] at hok
+      exact (valid_iff_spec name).mp hok
+  · split at h
+    · cases h
+    · rename_i hv
+      exact (valid_iff_spec name).mp hv
+
+/-- With the proposed fix (validate first) the statement holds for every configuration map. -/
+theorem find_accepts_only_valid_fixed (confs : List ConfEntry) (name key : Bytes)
+    (h : findPathConfFixed confs name = .found key) : validSpec name = true := by
+  unfold findPathConfFixed at h
+  split at h
+  · cases h
+  · rename_i hv
+    exact (valid_iff_spec name).mp hv
+
+/-- the fix changes nothing for valid names. -/
+theorem find_fixed_eq (confs : List ConfEntry) (name : Bytes) (hv : isValidPathName name = none) :
+    findPathConfFixed confs name = findPathConf confs name := by
+  simp [findPathConfFixed, hv]
+
+/-- Witness: one regexp conf `~^.*$`; the name `~^.*$` is accepted. -/
+theorem find_accepts_only_valid_witness : ¬ find_accepts_only_valid_full := by
+  intro h
+  have := h [⟨asc ['~','^','.','*','$'], true, true⟩] (asc ['~','^','.','*','$']) (asc ['~','^','.','*','$'])
+    (by decide) (by decide)
+  revert this
+  decide
+
+/-! ### 3. no valid name puts a `..` component into a file name -/
+
+theorem step_plain (q : St) (hq : q ≠ .found) (c : UInt8) (h7 : c ≠ 47) (h6 : c ≠ 46) : step q c = .sx := by
+  cases q <;> simp_all [step]
+
+theorem scan_sx_plain (v : Bytes) (h : ∀ c ∈ v, c ≠ 47 ∧ c ≠ 46) : scan .sx v = .sx := by
+  induction v with
+  | nil => rfl
+  | cons c r ih =>
+    have hc := h c List.mem_cons_self
+    rw [scan_cons, step_plain .sx (by simp) c hc.1 hc.2]
+    exact ih fun x hx => h x (List.mem_cons_of_mem _ hx)
+
+theorem scan_plain (v : Bytes) (hv : plainText v = true) (q : St) (hq : q ≠ .found) : scan q v = .sx := by
+  unfold plainText at hv
+  simp only [Bool.and_eq_true, Bool.not_eq_true', List.all_eq_true, bne_iff_ne, ne_eq] at hv
+  cases v with
+  | nil => simp at hv
+  | cons c r =>
+    have hc := hv.2 c List.mem_cons_self
+    rw [scan_cons, step_plain q hq c hc.1 hc.2]
+    exact scan_sx_plain r fun x hx => hv.2 x (List.mem_cons_of_mem _ hx)
+
+theorem text_plain (k : Kind) : plainText (Kind.text k) = true := by cases k <;> decide
+
+/-- **Expansion lemma**: the scanner cannot tell a name written for a valid path name (and time texts
+without `/` and `.`) from the format string itself — from any state.  In particular the written name
+has a `..` component iff the format has one. -/
+theorem scan_encodeA (toks : List Tok) (A : Kind → Bytes) (hA : goodAssign A = true) (q : St) :
+    scan q (encodeA toks A) = scan q (raw toks) := by
+  unfold goodAssign at hA
+  simp only [Bool.and_eq_true, Option.isNone_iff_eq_none, List.all_eq_true] at hA
+  have hAk : ∀ k : Kind, ∀ q : St, q ≠ .found → scan q (A k) = .sx := by
+    intro k q hq
+    cases k
+    · exact scan_valid_name _ hA.1 q hq
+    all_goals exact scan_plain _ (hA.2 _ (by simp)) q hq
+  induction toks generalizing q with
+  | nil => rfl
+  | cons t ts ih =>
+    cases t with
+    | lit b =>
+      show scan q ([b] ++ encodeA ts A) = scan q ([b] ++ raw ts)
+      rw [scan_append, scan_append, ih]
+    | cap k =>
+      show scan q (A k ++ encodeA ts A) = scan q (Kind.text k ++ raw ts)
+      rw [scan_append, scan_append]
+      by_cases hq : q = .found
+      · subst hq; rw [scan_found, scan_found, scan_found, scan_found]
+      · rw [hAk k q hq, scan_plain _ (text_plain k) q hq, ih]
+
+theorem hasDotDot_encodeA (toks : List Tok) (A : Kind → Bytes) (hA : goodAssign A = true) :
+    hasDotDot (encodeA toks A) = hasDotDot (raw toks) := by
+  unfold hasDotDot
+  rw [scan_encodeA toks A hA]
+
+/-! ### 4. lexical containment -/
+
+/-- cleaning never pops below what was there when only non-`..` components follow. -/
+theorem cleanComps_prefix (rooted : Bool) (A B : List Bytes) (hB : dotdot ∉ B) :
+    cleanComps rooted A <+: cleanComps rooted (A ++ B) := by
+  unfold cleanComps
+  rw [List.foldl_append]
+  generalize List.foldl (cleanStep rooted) [] A = base
+  suffices h : ∀ out : List Bytes, base <+: out → base <+: List.foldl (cleanStep rooted) out B from
+    h base (List.prefix_refl _)
+  induction B with
+  | nil => intro out h; exact h
+  | cons c cs ih =>
+    intro out h
+    have hc : c ≠ dotdot := fun e => hB (e ▸ List.mem_cons_self)
+    have hcs : dotdot ∉ cs := fun hm => hB (List.mem_cons_of_mem _ hm)
+    rw [List.foldl_cons]
+    apply ih hcs
+    unfold cleanStep
+    by_cases h1 : c = [] ∨ c = dot
+    · rw [if_pos h1]; exact h
+    · rw [if_neg h1, if_neg hc]; exact h.trans (List.prefix_append _ _)
+
+/-- **Containment** (component level).  `base` = absolute directory (as text), `X` = what follows it in
+the written file name.  If no component of `X` is `..`, the cleaned file path has the cleaned base
+directory as a component-wise prefix. -/
+theorem contained_text (base X : Bytes) (hX : hasDotDot X = false) :
+    cleanComps true (splitOn 47 base) <+: cleanComps true (splitOn 47 (base ++ 47 :: X)) := by
+  rw [splitOn_append_slash]
+  apply cleanComps_prefix
+  intro hm
+  have := (hasDotDot_iff X).mpr hm
+  rw [hX] at this
+  cases this
+
+/-- **C06, containment for every file name the recorder writes** (and hence for everything found by
+walking from the prefix): format = `C/R` where `C` is the `%`-free common path and `R` the rest as
+token sequence; if the format's rest has no literal `..` component, then for every valid path name and
+all time texts the cleaned absolute file path lies component-wise under the cleaned absolute `C`
+(`cwd` absolute; relative format). -/
+theorem contained (cwd C : Bytes) (R : List Tok) (A : Kind → Bytes)
+    (hA : goodAssign A = true) (hR : hasDotDot (raw R) = false) :
+    cleanComps true (splitOn 47 (cwd ++ 47 :: C)) <+:
+      cleanComps true (splitOn 47 (cwd ++ 47 :: (C ++ 47 :: encodeA R A))) := by
+  have := contained_text (cwd ++ 47 :: C) (encodeA R A) (by rw [hasDotDot_encodeA R A hA, hR])
+  simpa using this
+
+/-- the same for an absolute format `C/R` (`C` starts with `/`). -/
+theorem contained_abs (C : Bytes) (R : List Tok) (A : Kind → Bytes)
+    (hA : goodAssign A = true) (hR : hasDotDot (raw R) = false) :
+    cleanComps true (splitOn 47 C) <+: cleanComps true (splitOn 47 (C ++ 47 :: encodeA R A)) :=
+  contained_text C (encodeA R A) (by rw [hasDotDot_encodeA R A hA, hR])
+
+/-- `absComps` is what the two statements above talk about. -/
+theorem absComps_rel (cwd p : Bytes) (h : p.head? ≠ some 47) :
+    absComps cwd p = cleanComps true (splitOn 47 (cwd ++ 47 :: p)) := by
+  unfold absComps
+  rw [if_neg h, splitOn_append_slash]
+
+theorem absComps_abs (cwd p : Bytes) (h : p.head? = some 47) :
+    absComps cwd p = cleanComps true (splitOn 47 p) := by
+  unfold absComps
+  rw [if_pos h]
+
+/-- `absolutePathInside` only tests a *string* prefix … -/
+theorem absolutePathInside_sound (cwd base cand r : Bytes) (h : absolutePathInside cwd base cand = some r) :
+    r = abs cwd (clean cand) ∧ (abs cwd (clean base)).isPrefixOf r = true := by
+  unfold absolutePathInside at h
+  simp only at h
+  split at h
+  · rename_i hp; cases h; exact ⟨rfl, hp⟩
+  · cases h
+
+/-- … which is not containment (`/rec` vs `/rec2`): the code relies on the validity of the name, as its
+comment says; that reliance is what `contained` justifies. -/
+example : absolutePathInside (asc ['/']) (asc ['/','r','e','c']) (asc ['/','r','e','c','2','/','x'])
+    = some (asc ['/','r','e','c','2','/','x']) := by decide
+
+/-! ### non-vacuity / sanity -/
+
+example : isValidPathName (asc ['c','a','m','/','a','.','b','/','.','.','.']) = none := by decide
+example : isValidPathName (asc ['a','/','.','.','/','b']) = some .dots
+    ∧ isValidPathName (asc ['/','a']) = some .lead ∧ isValidPathName (asc ['a','/']) = some .trail
+    ∧ isValidPathName (asc ['a','%','2','e']) = some .chars ∧ isValidPathName [] = some .empty
+    ∧ isValidPathName (asc ['a','/','/','b']) = none := by decide
+/-- default format `./recordings/%path/%Y-…`: common path and a good assignment -/
+example : commonPath (asc ['.','/','r','e','c','/','%','p','a','t','h','/','%','s']) = asc ['.','/','r','e','c'] := by decide
+example : goodAssign (fun k => match k with
+    | .path => asc ['c','a','m','/','1'] | .z => asc ['+','0','1','0','0'] | _ => asc ['0','7']) = true := by decide
+example : hasDotDot (raw [.cap .path, .lit 47, .cap .s]) = false := by decide
+/-- a `..` literally in the format (after the placeholders) is the format's fault, not the name's -/
+example : hasDotDot (raw [.cap .path, .lit 47, .lit 46, .lit 46, .lit 47, .cap .s]) = true := by decide
+/-- traversal with an invalid name does climb out lexically -/
+example : cleanComps true (splitOn 47 (asc ['/','r','/','.','.','/','.','.','/','e','t','c'])) = [asc ['e','t','c']] := by decide
+
+/-! ### 5. token sequences are formats: `raw ∘ tokenize = id` -/
+
+theorem kindOfLetter_text (c : UInt8) (k : Kind) (h : MtxVerif.C26.kindOfLetter c = some k) :
+    Kind.text k = [37, c] := by
+  unfold MtxVerif.C26.kindOfLetter at h
+  repeat' split at h
+  all_goals first | (cases h; done) | (cases h; rename_i hc; rw [hc]; rfl)
+
+theorem tokAt_text (s : Bytes) (k : Kind) (n : Nat) (h : MtxVerif.C26.tokAt s = some (k, n)) :
+    s = Kind.text k ++ s.drop (n + 1) ∧ (Kind.text k).length = n + 1 := by
+  unfold MtxVerif.C26.tokAt at h
+  split at h
+  · rename_i c r
+    split at h
+    · rename_i hp
+      cases h
+      obtain ⟨t, ht⟩ := List.isPrefixOf_iff_prefix.mp hp
+      have hlen : MtxVerif.C26.pathPat.length = 5 := rfl
+      refine ⟨?_, rfl⟩
+      rw [← ht]
+      show MtxVerif.C26.pathPat ++ t = MtxVerif.C26.pathPat ++ (MtxVerif.C26.pathPat ++ t).drop 5
+      rw [← hlen, List.drop_left]
+    · simp only [Option.map_eq_some_iff, Prod.mk.injEq] at h
+      obtain ⟨k', hk, rfl, rfl⟩ := h
+      rw [kindOfLetter_text c k' hk]
+      exact ⟨rfl, rfl⟩
+  · cases h
+
+theorem raw_tokenizeAux (fmt : Bytes) : ∀ skip, raw (MtxVerif.C26.tokenizeAux skip fmt) = fmt.drop skip := by
+  induction fmt with
+  | nil => intro skip; cases skip <;> rfl
+  | cons c r ih =>
+    intro skip
+    cases skip with
+    | succ n => simp only [MtxVerif.C26.tokenizeAux, List.drop_succ_cons]; exact ih n
+    | zero =>
+      simp only [MtxVerif.C26.tokenizeAux, List.drop_zero]
+      split
+      · rename_i k n hk
+        obtain ⟨h1, h2⟩ := tokAt_text (c :: r) k n hk
+        show Kind.text k ++ raw (MtxVerif.C26.tokenizeAux n r) = c :: r
+        rw [ih n]
+        simpa using h1.symm
+      · show [c] ++ raw (MtxVerif.C26.tokenizeAux 0 r) = c :: r
+        rw [ih 0]; rfl
+
+/-- tokenising a format and writing the tokens back gives the format: the theorems above, stated for
+token sequences, are statements about all format strings. -/
+theorem raw_tokenize (fmt : Bytes) : raw (tokenize fmt) = fmt := raw_tokenizeAux fmt 0
+
+/-- **C06 containment, format-string form**: relative record path `C/rest` where `rest` (the part from
+the first component that contains `%`) has no literal `..` component. -/
+theorem contained_fmt (cwd C rest : Bytes) (A : Kind → Bytes)
+    (hA : goodAssign A = true) (hR : hasDotDot rest = false) :
+    cleanComps true (splitOn 47 (cwd ++ 47 :: C)) <+:
+      cleanComps true (splitOn 47 (cwd ++ 47 :: (C ++ 47 :: encodeA (tokenize rest) A))) :=
+  contained cwd C (tokenize rest) A hA (by rw [raw_tokenize]; exact hR)
+
 end MtxVerif.C06
